@@ -592,8 +592,8 @@ func (x *Exec) cutLoop(s *State, ord int, label string, spec *LoopSpec, pos toke
 	frameNames := x.loopFrameNames(ws, s)
 	x.loopFrameOblige(s, frameNames, ord, "entry", x.pos(pos))
 	h := s.clone()
-	h.calls, h.callsOpen = nil, true // an unknown number of iterations may have called out of the module
-	h.log = append(h.log, logGap)    // ... and may have written: an unknown stretch of the ghost write log
+	x.loopCallGap(h, writes...)    // an unknown number of iterations may have called out of the module
+	h.log = append(h.log, logGap) // ... and may have written: an unknown stretch of the ghost write log
 	x.havocVars(h, ws)
 	x.loopFrameAssume(h, frameNames)
 	if spec != nil {
@@ -840,6 +840,8 @@ func (x *Exec) rangeLoop(s *State, n *ast.RangeStmt, ord int, label string, spec
 	frameNames := x.loopFrameNames(ws, s)
 	x.loopFrameOblige(s, frameNames, ord, "entry", x.pos(n.Pos()))
 	h := s.clone()
+	x.loopCallGap(h, n.Body) // an unknown number of iterations may have called out of the module ...
+	h.log = append(h.log, logGap)
 	x.havocVars(h, ws)
 	x.loopFrameAssume(h, frameNames)
 	i := h.env[idxObj]
@@ -1016,4 +1018,101 @@ func (x *Exec) callWriteNames(call *ast.CallExpr, add func(string)) bool {
 		return true
 	}
 	return false
+}
+
+// loopCallGap records, at a loop head, that an unknown number of iterations may have made calls: the ghost call log
+// gets a gap that names what the loop body can call (the names of the external / logged calls it contains and the
+// callee sets of its modular calls); if the body contains a call whose target is not statically known, the whole log
+// is forgotten.
+func (x *Exec) loopCallGap(h *State, nodes ...ast.Node) {
+	g := &mergeGap{names: map[string]bool{}}
+	info := x.frame().info
+	for _, nd := range nodes {
+		if nd == nil {
+			continue
+		}
+		ast.Inspect(nd, func(n ast.Node) bool {
+			call, ok := n.(*ast.CallExpr)
+			if !ok {
+				return true
+			}
+			if tv, ok := info.Types[call.Fun]; ok && tv.IsType() {
+				return true
+			}
+			var obj types.Object
+			switch f := unparen(call.Fun).(type) {
+			case *ast.Ident:
+				obj = info.ObjectOf(f)
+			case *ast.SelectorExpr:
+				obj = info.ObjectOf(f.Sel)
+			case *ast.IndexExpr:
+				switch gx := f.X.(type) {
+				case *ast.Ident:
+					obj = info.ObjectOf(gx)
+				case *ast.SelectorExpr:
+					obj = info.ObjectOf(gx.Sel)
+				}
+			}
+			switch o := obj.(type) {
+			case *types.Builtin:
+			case *types.Func:
+				if c := x.eng.funcs[o.Origin()]; c != nil {
+					g.names["@"+c.Key] = true
+					g.infos = append(g.infos, x.eng.callsOf(c))
+				} else {
+					g.names[o.FullName()] = true
+				}
+			case *types.Var:
+				// a local closure: its body is part of the loop body's syntax only if it is defined inside; a function
+				// value from elsewhere may call anything
+				if fl := x.closureLit(o); fl != nil {
+					// walk the closure's body as part of this loop
+					ast.Inspect(fl.Body, func(m ast.Node) bool {
+						if c2, ok := m.(*ast.CallExpr); ok {
+							if o2 := x.calleeObj(c2); o2 != nil {
+								if f2, ok := o2.(*types.Func); ok {
+									if c := x.eng.funcs[f2.Origin()]; c != nil {
+										g.names["@"+c.Key] = true
+										g.infos = append(g.infos, x.eng.callsOf(c))
+									} else {
+										g.names[f2.FullName()] = true
+									}
+									return true
+								}
+								if _, ok := o2.(*types.Builtin); ok {
+									return true
+								}
+							}
+							if tv, ok := info.Types[c2.Fun]; ok && tv.IsType() {
+								return true
+							}
+							g.all = true
+						}
+						return true
+					})
+				} else {
+					g.all = true
+				}
+			default:
+				if _, isLit := unparen(call.Fun).(*ast.FuncLit); !isLit {
+					g.all = true
+				}
+			}
+			return true
+		})
+	}
+	if g.all {
+		h.calls, h.callsOpen = nil, true
+		return
+	}
+	h.calls = append(append([]callRec(nil), h.calls...), callRec{name: "?", mg: g})
+}
+
+func (x *Exec) closureLit(o types.Object) *ast.FuncLit {
+	for i := len(x.frames) - 1; i >= 0; i-- {
+		if fl, ok := x.frames[i].closures[o]; ok {
+			return fl
+		}
+	}
+	return nil
 }
